@@ -77,8 +77,13 @@ CLAIMED = {
    text="Theorems (Props/C06.v), for arbitrary logs: a Join that returns an error leaves the log unchanged; every entry a successful "
         "Join adds carries the log's id and passed access controller, signature check and key presence; an invalid candidate makes the "
         "Join fail; under the log invariant the candidates are exactly the source's entries the destination lacks (success iff all "
-        "valid); a denied Append changes neither entries nor heads. 'Appended entries verify' is C07 (default codec) / C18 (link "
-        "codec) / harness (legacy). Tied by histories with refusing access controllers and monitors on the real Join/Append.",
+        "valid); with any bound, between any two replicas of any history, everything the log holds afterwards it held before or it "
+        "passed the checks (C06_any_merge_admits_only_valid); the heads of a merge are the log's own held-or-checked entries whatever "
+        "an arbitrary other log presents as its heads (C06_heads_are_own_verified_entries; found and repaired: Join trusted the other "
+        "log's head objects, 2c00552); a denied Append changes neither entries nor heads. 'Appended entries verify' is C07 (default "
+        "codec) / C18 (link codec) / harness (legacy). Tied by histories with refusing access controllers and monitors on the real "
+        "Join/Append, incl. forged entries at any position, an entry of another log on top of the heads, an entry-dependent access "
+        "controller and tampered copies in the head list.",
    technique="Coq proof (control flow of Join/Append model, difference specification) + differential correspondence vs Go", design="6/C06"),
  "C08": dict(
    text="Theorems (Props/C08.v): CBOR byte layer decode(encode t ++ rest) = (t, rest) for well-formed trees (prefix-free, injective); "
